@@ -329,7 +329,9 @@ class SpecGen:
                 params[nm] = self.pick(lambda j: self._str_stable(j)) or self.selector_leaf()
                 parts.append("{:" + nm + ":}")
             else:
-                parts.append(r.choice(["lit", "\\{e\\}", "-"]))
+                # (no escaped braces: the resolved text "{e}" would be re-interpreted as a reference by any
+                #  template that later stringifies a value containing it — a C09 matter, not claimed here)
+                parts.append(r.choice(["lit", "x", "-"]))
         if not any(p.startswith("{") for p in parts):
             parts.append("{" + self.key(scalar_only=True) + "}")
         return self.add({"k": "template", "text": "_".join(parts), "params": params}, hashable=True)
@@ -341,9 +343,17 @@ class SpecGen:
         seen.add(nid)
         n = next(x for x in self.nodes if x["id"] == nid)
         k = n["k"]
-        if k == "alloptions":
+        if k in ("alloptions", "dict"):
             return False
-        if k in ("dataset", "derive", "apply", "map", "template", "val"):
+        if k == "val":
+            return not isinstance(n["v"], dict)
+        if k == "opt" and (n["key"] in U.WHOLE_KEYS or isinstance((n.get("default") or {}).get("v"), dict)):
+            # hazard: the string form of a dictionary contains braces, which confectioner's resolve
+            # re-interprets as a template reference (a C09 matter, not claimed here)
+            return False
+        if k == "template":
+            return "\\{" not in n["text"] and all(self._str_stable(c, seen) for c in n.get("params", {}).values())
+        if k in ("dataset", "derive", "apply", "map"):
             return True
         return all(self._str_stable(c, seen) for c in children(n))
 
@@ -589,3 +599,36 @@ def scalar_at_section_prefix(spec, dictionaries):
                 if ok and not isinstance(v, (dict, list)):
                     return True
     return False
+
+
+def spec_ok(spec):
+    """Generator invariants that the shrinker must preserve (each one answers a soundness hazard)."""
+    import random
+
+    g = SpecGen(random.Random(0), {})
+    g.nodes = spec["nodes"]
+    by = {n["id"]: n for n in spec["nodes"]}
+    for n in spec["nodes"]:
+        if any(c not in by for c in children(n)):
+            return False
+        k = n["k"]
+        if k == "template":
+            if not all(g._str_stable(c) for c in n.get("params", {}).values()):
+                return False
+        elif k == "derive":
+            if by[n["base"]]["k"] not in ("dataset", "derive"):
+                return False
+        elif k == "map":
+            for it in n["iterables"].values():
+                m = by[it]
+                if not ((m["k"] == "val" and isinstance(m["v"], list)) or (m["k"] == "opt" and m["key"] == "L" and isinstance((m.get("default") or {}).get("v"), list))):
+                    return False
+        elif k == "opt" and n.get("domain") and n.get("default"):
+            d, dom = n["default"], n["domain"]
+            if not (d["t"] in ("const", "factory") and dom["t"] in ("container", "pred") and U.canon(d["v"]) in [U.canon(x) for x in dom["v"]]):
+                return False
+        elif k == "dataset":
+            for _, impl in n.get("overloads", []):
+                if impl.get("via") == "overload" and by[impl["n"]]["k"] not in ("dataset", "derive"):
+                    return False
+    return True
